@@ -1,5 +1,5 @@
 \* thorough: two relation items per class (call + call-from-main to one target, field + call, self relations, extends +
-\* implements ...): 2 types out of {a.A, a.Main, b.B}, 6 kinds x 4 targets, unmerged and header-merged
+\* implements ...): 2 types out of {a.A, a.Main, b.MainB}, 6 kinds x 4 targets, unmerged and header-merged
 SPECIFICATION Spec
 CONSTANTS
   Universe <- U_pair
